@@ -19,6 +19,7 @@ type c16Key struct {
 	EnvMode  string `json:"env_mode"`  // "" (absent) | value | novalue | empty
 	RefTo    string `json:"ref_to"`    // when set: the value in the LAST file that defines it is `${RefTo}-r`
 	RefLayer int    `json:"ref_layer"` // informational
+	RefDash  bool   `json:"ref_dash,omitempty"` // the reference is written ${RefTo-dflt}: a key defined empty is still defined
 	EmptyIn  []bool `json:"empty_in,omitempty"` // env file i defines the key with the empty string (`KEY=`): a definition like any other
 }
 
@@ -153,6 +154,7 @@ func genC16(t *rapid.T) c16Case {
 		}
 		if len(cands) > 0 {
 			k.RefTo = rapid.SampledFrom(cands).Draw(t, "refto")
+			k.RefDash = rapid.Bool().Draw(t, "refdash")
 		}
 	}
 	nl := rapid.IntRange(0, 5).Draw(t, "nlabels")
@@ -182,7 +184,11 @@ func (cs c16Case) build() (loadCase, map[string]*string, map[string]string, bool
 		for _, k := range cs.Keys {
 			if f < len(k.InFiles) && k.InFiles[f] {
 				if k.RefTo != "" {
-					b.WriteString(fmt.Sprintf("%s=${%s}-r\n", k.Name, k.RefTo))
+					if k.RefDash {
+						b.WriteString(fmt.Sprintf("%s=${%s-dflt}-r\n", k.Name, k.RefTo))
+					} else {
+						b.WriteString(fmt.Sprintf("%s=${%s}-r\n", k.Name, k.RefTo))
+					}
 				} else {
 					b.WriteString(fmt.Sprintf("%s=%s\n", k.Name, k.valueIn(f)))
 				}
@@ -216,7 +222,10 @@ func (cs c16Case) build() (loadCase, map[string]*string, map[string]string, bool
 				if k.RefTo != "" {
 					v, ok := env[k.RefTo]
 					if !ok {
-						v = penv[k.RefTo]
+						v, ok = penv[k.RefTo]
+					}
+					if !ok && k.RefDash {
+						v = "dflt"
 					}
 					env[k.Name] = v + "-r"
 				} else {
